@@ -281,6 +281,11 @@ def _tall_matrix(draw, weights=(6, 2, 2), nmax=NMAX, nmin=1):
 MAXIT = {"quick": [1, 3, 10, 30, 100, 300, 300, 300], "thorough": [1, 2, 3, 5, 10, 30, 100, 300, 300, 300, 1000]}
 
 
+def _warm_matrix(A):
+    """A nearby full-rank matrix of the same shape for a warm-up call on the SAME solver object."""
+    return A + (1.0 / 16.0) * ref.conj(A[::-1])
+
+
 @st.composite
 def rsp_column_cases(draw, tier):
     A, e = draw(_tall_matrix(weights=(8, 1, 1)))
@@ -292,7 +297,8 @@ def rsp_column_cases(draw, tier):
     solver = draw(st.sampled_from(["qr", "qr", "qr", "spd", "spd", "QR", "Spd"]))   # the constructor lower-cases
     return {"A": A, "scale_exp": e, "entry": entry, "block": block, "solver": solver, "tol": draw(_tol_strategy()),
             "max_iter": draw(st.sampled_from(MAXIT[tier])), "sketch": draw(st.sampled_from([8, 8, 8, 8, 6, 7, 12])),
-            "seed": draw(gen.seeds()), "seed_mode": draw(st.sampled_from(["ctor", "ctor", "global"]))}
+            "seed": draw(gen.seeds()), "seed_mode": draw(st.sampled_from(["ctor", "ctor", "global"])),
+            "warmup": draw(st.sampled_from([False, False, True]))}
 
 
 @st.composite
@@ -317,7 +323,8 @@ def hybrid_cases(draw, tier):
     return {"A": A, "scale_exp": e, "r": draw(_block(n)), "p": draw(st.integers(2, 8)), "T": draw(st.integers(1, 5)),
             "solver": draw(st.sampled_from(["qr", "qr", "spd"])), "tol": draw(_tol_strategy()),
             "max_iter": draw(st.sampled_from([1, 2, 3, 5, 10, 20, 30, 50, 100, 200])),
-            "seed": draw(gen.seeds()), "seed_mode": draw(st.sampled_from(["ctor", "ctor", "global"]))}
+            "seed": draw(gen.seeds()), "seed_mode": draw(st.sampled_from(["ctor", "ctor", "global"])),
+            "warmup": draw(st.sampled_from([False, False, True]))}
 
 
 @st.composite
@@ -327,7 +334,7 @@ def cgne_cases(draw, tier):
     pr = draw(st.sampled_from([0, 0, 0, 0, 1, 2, n, n + 1, -1]))
     max_iter = draw(st.sampled_from([None, None, None, 1, 2, 3, 10, 50]))
     return {"A": A, "scale_exp": e, "prec_rank": pr, "tol": draw(_tol_strategy()), "max_iter": max_iter,
-            "seed": draw(gen.seeds())}
+            "seed": draw(gen.seeds()), "warmup": draw(st.sampled_from([False, False, True]))}
 
 
 @st.composite
@@ -376,8 +383,15 @@ def check_rsp_column(case):
         else:
             sol = L.solver.RandomizedSketchProjectPseudoinverse(seed=None, **kw)
             np.random.seed(seed)
+        if case.get("warmup"):
+            # the SAME solver object first solves a nearby problem of the same shape; the measured call is then
+            # re-seeded exactly like a fresh one (a result may depend on configuration and argument only)
+            getattr(sol, case["entry"])(Q(_warm_matrix(A)))
+            np.random.seed(seed)
         return getattr(sol, case["entry"])(Aq)
 
+    if case.get("warmup"):
+        out.label("reused_solver(warm-up call on a nearby matrix)")
     ok, res = out.call(site, run)
     if not ok:
         return out
@@ -569,6 +583,9 @@ def check_hybrid(case):
         else:
             sol = L.solver.HybridRSPNewtonSchulz(seed=None, **kw)
             np.random.seed(seed)
+        if case.get("warmup"):
+            sol.compute(Q(_warm_matrix(A)))
+            np.random.seed(seed)
         return sol.compute(Aq)
 
     ok, res = out.call(site, run)
@@ -642,7 +659,12 @@ def check_cgne(case):
         kw = dict(tol=tol, preconditioner_rank=pr, seed=seed)
         if case["max_iter"] is not None:
             kw["max_iter"] = case["max_iter"]
-        return L.solver.CGNEQSolver(**kw).compute(Aq)
+        sol = L.solver.CGNEQSolver(**kw)
+        if case.get("warmup"):
+            sol.compute(Q(_warm_matrix(A)))
+            if seed is not None:
+                np.random.seed(seed)
+        return sol.compute(Aq)
 
     ok, res = out.call(site, run)
     if not ok:
